@@ -92,6 +92,12 @@ def parse_rfc3339_datetime(rfc3339):
 
     if "." not in date:
         date = date + ".0"
+    else:
+        # RFC3339 allows any number of fractional second digits, but strptime's
+        # %f only accepts up to six (microseconds) so truncate any extra ones.
+        seconds, fraction = date.rsplit(".", 1)
+        if fraction.isdigit():
+            date = seconds + "." + fraction[:6]
     raw_datetime = datetime.strptime(date, "%Y-%m-%dT%H:%M:%S.%f")
     delta = timedelta(hours=int(offset[-5:-3]), minutes=int(offset[-2:]))
     if offset[0] == "-":
